@@ -152,4 +152,19 @@ Fixpoint run (k : nat) (s : sim) : outcome * list obs :=
       end
   end.
 
+(* Simulation.add_event / add_events between two steps: the trackers of the new events are
+   appended in the order given; the economy, the clock and the trackers already registered
+   are untouched *)
+Definition register (s : sim) (new : list tracker) : sim :=
+  {| eco := eco s; trs := trs s ++ new; now := now s |}.
+
+(* a session: steps interleaved with registrations, stopping at the first Crash / Error *)
+Inductive op := OStep | OAdd (new : list tracker).
+Fixpoint session (ops : list op) (s : sim) : outcome :=
+  match ops with
+  | [] => Ok s
+  | OStep :: r => match fst (step s) with Ok s' => session r s' | o => o end
+  | OAdd new :: r => session r (register s new)
+  end.
+
 End Step.
